@@ -32,6 +32,7 @@ void hub(TC& c, Method m, uint8_t sid, uint8_t inj, const void* self, const void
 namespace cfg {
 
 struct Ev1 { uint32_t value; };
+struct Ev2 { uint64_t a, b; };   // a second event type: react<TEvent>/query<TEvent> are templates
 
 #define VERIF_CALLBACKS(SID, INJ)                                                                                                   \
 	void entryGuard(GuardControl& c) { mon::hub<mon::FLV_GUARD>(c, ffsm2::Method::ENTRY_GUARD, SID, INJ, this); }                     \
@@ -44,6 +45,10 @@ struct Ev1 { uint32_t value; };
 	void react(const Ev1& e, FullControl& c) { mon::hub<mon::FLV_FULL>(c, ffsm2::Method::REACT, SID, INJ, this, &e); }                \
 	void postReact(const Ev1& e, FullControl& c) { mon::hub<mon::FLV_FULL>(c, ffsm2::Method::POST_REACT, SID, INJ, this, &e); }       \
 	void query(Ev1& e, ConstControl& c) const { mon::hub<mon::FLV_CONST>(c, ffsm2::Method::QUERY, SID, INJ, this, &e); }              \
+	void preReact(const Ev2& e, FullControl& c) { mon::hub<mon::FLV_FULL>(c, ffsm2::Method::PRE_REACT, SID, INJ, this, &e); }         \
+	void react(const Ev2& e, FullControl& c) { mon::hub<mon::FLV_FULL>(c, ffsm2::Method::REACT, SID, INJ, this, &e); }                \
+	void postReact(const Ev2& e, FullControl& c) { mon::hub<mon::FLV_FULL>(c, ffsm2::Method::POST_REACT, SID, INJ, this, &e); }       \
+	void query(Ev2& e, ConstControl& c) const { mon::hub<mon::FLV_CONST>(c, ffsm2::Method::QUERY, SID, INJ, this, &e); }              \
 	void exitGuard(GuardControl& c) { mon::hub<mon::FLV_GUARD>(c, ffsm2::Method::EXIT_GUARD, SID, INJ, this); }                       \
 	void exit(PlanControl& c) { mon::hub<mon::FLV_PLAN>(c, ffsm2::Method::EXIT, SID, INJ, this); }
 
@@ -118,6 +123,19 @@ struct Lg : FSM::Logger {
 // monitors that need the complete machine type
 
 namespace mon {
+
+// ---------------------------------------------------------------------------
+// the API exists in two forms - by state id and by state type (changeTo(id) / changeTo<T>() ...); the
+// type forms are exercised through this run-time -> compile-time dispatch
+
+template <typename F, size_t... I>
+inline void forState(unsigned id, F&& f, std::index_sequence<I...>) {
+	const int d[] = {0, (id == I ? (f(std::integral_constant<unsigned, I>{}), 0) : 0)...};
+	(void) d;
+}
+#define FOR_STATE(id, T, stmt) ::mon::forState(id, [&](auto tag_) { using T = cfg::StateAt<decltype(tag_)::value>; stmt; }, std::make_index_sequence<cfg::N>{})
+
+inline bool typeForm() { World& w = *W; return w.ch.mode != Chooser::ENUM && w.ch.draw(2) == 1; }
 
 // ---------------------------------------------------------------------------
 // plan read-back through whatever handle the control offers
@@ -235,6 +253,13 @@ inline void checkControl(TC& c, Inst& in, Method m, uint8_t sid, const void* ev)
 	for (unsigned i = 0; i < N; ++i) {
 		const bool byCtl = c.isActive(static_cast<StateID>(i));
 		const bool byMach = in.obj->isActive(static_cast<StateID>(i));
+		bool byCtlT = byCtl, byMachT = byMach;
+		unsigned idT = i, idCtlT = i;
+		FOR_STATE(i, T, (byCtlT = c.template isActive<T>(), byMachT = in.obj->template isActive<T>(), idT = cfg::FSM::stateId<T>(), idCtlT = TC::template stateId<T>()));
+		if (byCtlT != byCtl || byMachT != byMach || idT != i || idCtlT != i) {
+			w.V("C06", "type-form-disagrees-with-id-form|isActive/stateId", fmt("inside %s of %u: isActive<T>()/stateId<T>() for the state with id %u give ctl %d/%d mach %d/%d ids %u %u", mname(m), sid, i, int(byCtlT), int(byCtl), int(byMachT), int(byMach), idT, idCtlT));
+			break;
+		}
 		if (byCtl != byMach) {
 			w.V("C06", fmt("isActive-disagrees-with-machine|id%s0|%s", i == 0 ? "==" : "!=", F == FLV_CONST ? "const" : F == FLV_PLAN ? "plan" : F == FLV_FULL ? "full" : "guard"),
 				fmt("inside %s of %u: control.isActive(%u)=%d, machine.isActive(%u)=%d (machine active state %u); %s", mname(m), sid, i, int(byCtl), i, int(byMach), machActive, w.tail().c_str()));
@@ -314,13 +339,14 @@ inline void doChange(TC& c, Inst& in, uint8_t sid, uint8_t dest, bool withPayloa
 	const StateID before = in.obj->activeStateId();
 	const uint64_t subsBefore = w.nEvents;
 	const uint64_t tag = withPayload ? ++w.tagCounter : 0;
+	const bool byType = typeForm();
 	w.act(in, withPayload ? ACT_CHANGE_WITH : ACT_CHANGE, dest, sid, tag);
 	w.ownRequest = true; w.ownLogCount = 0;
 #if HAS_PAYLOAD
-	if (withPayload) { const cfg::Payload pl = cfg::makePayload(tag); LIB(c.changeWith(static_cast<StateID>(dest), pl)); }
+	if (withPayload) { const cfg::Payload pl = cfg::makePayload(tag); if (byType) FOR_STATE(dest, T, LIB(c.template changeWith<T>(pl))); else LIB(c.changeWith(static_cast<StateID>(dest), pl)); }
 	else
 #endif
-		LIB(c.changeTo(static_cast<StateID>(dest)));
+	{ if (byType) FOR_STATE(dest, T, LIB(c.template changeTo<T>())); else LIB(c.changeTo(static_cast<StateID>(dest))); }
 	w.ownRequest = false;
 	w.noteRequest(in, sid, dest, withPayload, tag);
 	const Req r = toReq(c.request());
@@ -348,7 +374,9 @@ inline void doReport(TC& c, Inst& in, uint8_t sid, bool success, uint8_t target,
 	World& w = *W;
 	w.act(in, success ? ACT_SUCCEED : ACT_FAIL, target, sid);
 	w.ownReport = true; w.ownLogCount = 0;
+	const bool byType = !implicitId && typeForm();
 	if (implicitId) { if (success) LIB(c.succeed()); else LIB(c.fail()); }
+	else if (byType) { if (success) FOR_STATE(target, T, LIB(c.template succeed<T>())); else FOR_STATE(target, T, LIB(c.template fail<T>())); }
 	else { if (success) LIB(c.succeed(static_cast<StateID>(target))); else LIB(c.fail(static_cast<StateID>(target))); }
 	w.ownReport = false;
 	w.noteReport(in, success, target, sid, true);
@@ -362,12 +390,21 @@ inline void planAppend(TPlan plan, Inst& in, uint8_t origin, uint8_t dest, bool 
 	Task t; t.origin = origin; t.dest = dest; t.hasPay = withPayload; t.tag = withPayload ? ++w.tagCounter : 0;
 	const bool expectOk = in.plan.size() < cfg::CAP;
 	w.act(in, expectOk ? ACT_PLAN_APPEND : ACT_PLAN_APPEND_FULL, origin, dest, t.tag);
-	bool ok;
+	bool ok = false;
+	const unsigned form = w.ch.mode != Chooser::ENUM ? w.ch.draw(3) : 0;   // 0: (origin, destination)  1: <Origin>(destination)  2: <Origin, Destination>()
 #if HAS_PAYLOAD
-	if (withPayload) { const cfg::Payload pl = cfg::makePayload(t.tag); LIB(ok = plan.changeWith(static_cast<StateID>(origin), static_cast<StateID>(dest), pl)); }
-	else
+	if (withPayload) {
+		const cfg::Payload pl = cfg::makePayload(t.tag);
+		if (form == 0) LIB(ok = plan.changeWith(static_cast<StateID>(origin), static_cast<StateID>(dest), pl));
+		else if (form == 1) FOR_STATE(origin, TO, LIB(ok = plan.template changeWith<TO>(static_cast<StateID>(dest), pl)));
+		else FOR_STATE(origin, TO, FOR_STATE(dest, TD, LIB(ok = (plan.template changeWith<TO, TD>(pl)))));
+	} else
 #endif
-		LIB(ok = plan.change(static_cast<StateID>(origin), static_cast<StateID>(dest)));
+	{
+		if (form == 0) LIB(ok = plan.change(static_cast<StateID>(origin), static_cast<StateID>(dest)));
+		else if (form == 1) FOR_STATE(origin, TO, LIB(ok = plan.template change<TO>(static_cast<StateID>(dest))));
+		else FOR_STATE(origin, TO, FOR_STATE(dest, TD, LIB(ok = (plan.template change<TO, TD>()))));
+	}
 	if (ok != expectOk)
 		w.V("C10", fmt("append-result|%s|%s", expectOk ? "refused-with-room" : "accepted-when-full", withPayload ? "changeWith" : "change"),
 			fmt("%s: plan holds %zu of %u tasks, append returned %d; %s", where, in.plan.size(), cfg::CAP, int(ok), w.tail().c_str()));
